@@ -20,6 +20,7 @@ import Hdl21Model.Drv.ConnTypes
 import Hdl21Model.Drv.ExportNames
 import Hdl21Model.Drv.InstBundle
 import Hdl21Model.Drv.ArrayPass
+import Hdl21Model.Drv.NameEnc
 open Lean
 
 /-- Line protocol: one JSON object per input line `{"prop": "C03", "op": ..., ...}`,
@@ -50,6 +51,7 @@ def dispatch (j : Json) : Except String Json := do
   | "EN" => Hdl21.Drv.ExportNames.handle op j
   | "IB" => Hdl21.Drv.InstBundle.handle op j
   | "AP" => Hdl21.Drv.ArrayPass.handle op j
+  | "NE" => Hdl21.Drv.NameEnc.handle op j
   | "SEM" => Hdl21.Drv.Sem.handle op j
   | _ => .error s!"unknown prop {prop}"
 
